@@ -180,7 +180,7 @@ def run(F, R):
                 R.check("C12-R4", "reboot-question:entry", True, "asked once on entry")
                 continue
             if where == ["control"]:
-                g_ = [(a_, b_) for (a_, b_, tr) in bv.bool_edges(lambda t: t[0] == "call" and t[1] == "std::cmp::PartialEq::eq" and "@StartUpdateCheck.options.source" in lib.apath(t) and "OnDemand" in lib.apath(t)) if tr]
+                g_ = lib.equal_edges(bv, lambda t: "@StartUpdateCheck.options.source" in lib.apath(t) and "OnDemand" in lib.apath(t))
                 R.check("C12-R4", "reboot-question:control-only-on-demand", bool(g_) and bv.dominated_by_edge(S.nodes[x].bi, g_), "in the control arm the question is asked only under `request.source == OnDemand`",
                         "a control request that is not on-demand re-asks reboot_allowed (the reboot no longer waits for its 30-minute timer)", S.nodes[x].loc())
             R.check("C12-R4", "reboot-question:" + (where[0] if where else "shared"), where in (["reboot-timer"], ["control"]), "asked in the %s arm" % where, "reboot_allowed is re-asked in %s" % (where or "code shared by several arms"), S.nodes[x].loc())
